@@ -487,7 +487,9 @@ class C22:
                                ab + "/outside/" + LONG])
         if mode == "trail":
             return rng.choice([base + "/", base + "/.", "sub/", "sub", "sub/deep", "", ".", "./", "ld_in", "ld_out",
-                               "~", "~/", "sub/.", ".../", base + "//"])
+                               "~", "~/", "sub/.", ".../", base + "//",
+                               # an existing FILE used as a folder
+                               "a.liquid/footer", "a.liquid/footer.liquid", "noext/x", "b.txt/a.liquid", "sub/c.liquid/d"])
         if mode == "surrogate":
             return rng.choice(["a\udc80.liquid", "\ud800", "sub/\udfff.liquid", "uni-ü世", "\U0001f600.liquid"])
         if mode == "dots":
@@ -863,6 +865,12 @@ class C22:
             bump(st, "relaxed.link_into_other_search_path")
             return
         if feat in ("dotdot", "abs"):
+            if sc["loader"] == "cfs" and not injected:
+                # ... unless it is the CACHE that answers: the same loader says not-found for this name
+                # when nothing is cached, so a name that cannot be resolved got an answer out of history
+                add("errors", "spurious-found:%s" % feat, {"op": op, "returned": tok,
+                                                           "note": "answered for a name the loader itself rejects when uncached"})
+                return
             # a name the documented contract rejects, answered with a file that IS inside the search
             # path (e.g. 'sub/../a.liquid'): stricter loaders say not-found, but nothing was read
             # outside the search directories, so the statement is not violated
